@@ -144,8 +144,22 @@ def check_case(case, res):
     if case.get('terminals_only') and not fixed:
         # a design whose netlist has only terminals (no dimensions at all) attached to the die
         netlist = Netlist({'Modules': {'T1': {'terminal': True, 'center': [0, 0]}, 'T2': {'terminal': True}}, 'Nets': [['T1', 'T2']]})
+    if case.get('macro') and not fixed:
+        # the netlist of the design also has a MOVABLE hard macro in the middle of the die (over whatever regions are
+        # there) whose rectangle was (re)assigned through the netlist's API: it is not a region of the die
+        mv = [num(f(W) / 2), num(f(H) / 2), num(f(W) / 2), num(f(H) / 2)]
+        try:
+            netlist = Netlist({'Modules': {'Hm': {'hard': True, 'rectangles': [list(mv)]}, 'S': {'area': float(f(1)) ** 2}}, 'Nets': [['Hm', 'S']]})
+            netlist.assign_rectangles({'Hm': [list(mv)]})
+        except Exception as e:  # noqa
+            res.violation('netlist-rejected', case, attrs, 'netlist with a hard macro loads', f'{type(e).__name__}: {e}')
+            res.case('netlist-rejected')
+            return
     if fixed:
         mods = {}
+        if case.get('macro'):
+            mv = [num(f(W) / 2), num(f(H) / 2), num(f(W) / 2), num(f(H) / 2)]
+            mods['Hm'] = {'hard': True, 'rectangles': [list(mv)]}
         if case.get('one_module') and len(fixed) == 2:
             mods['F1'] = {'fixed': True, 'rectangles': [vec(e) for e in fixed]}
         else:
@@ -155,6 +169,8 @@ def check_case(case, res):
         mods['S'] = {'area': 1 if not fam.startswith('BIG') else float(f(1)) ** 2}
         try:
             netlist = Netlist({'Modules': mods, 'Nets': []})
+            if case.get('macro'):
+                netlist.assign_rectangles({'Hm': [list(mods['Hm']['rectangles'][0])]})
         except Exception as e:  # noqa
             res.violation('netlist-rejected', case, attrs, 'netlist with fixed modules loads', f'{type(e).__name__}: {e}')
             res.case('netlist-rejected')
@@ -285,6 +301,9 @@ def run_shard(shard, tier, res):
                 for one in variants:
                     reset_frame_state()
                     check_case(dict(fam=fam, W=W, H=H, items=items, one_module=one), res)
+                if k <= 2 and kinds[0] != 'dsp':
+                    reset_frame_state()
+                    check_case(dict(fam=fam, W=W, H=H, items=items, one_module=False, macro=True), res)
                 if k == 1 and kinds[0] != 'fixed':
                     reset_frame_state()
                     check_case(dict(fam=fam, W=W, H=H, items=items, one_module=False, terminals_only=True), res)
